@@ -146,6 +146,8 @@ def _case(draw, pid, tier):
             op["params"] = over
         ops.append(op)
     case["ops"] = ops
+    # a reconciliation built through the API from plain Newick: ancestors carry no name
+    case["unnamed"] = draw(st.integers(0, 4)) == 0
     return case
 
 
@@ -279,8 +281,14 @@ class World:
         model = _m["model"]
         doc = self.document()
         if "syntenies" in doc:
-            return model.SuperReconciliationOutput.from_dict(doc)
-        return model.ReconciliationOutput.from_dict(doc)
+            rec = model.SuperReconciliationOutput.from_dict(doc)
+        else:
+            rec = model.ReconciliationOutput.from_dict(doc)
+        if self.case.get("unnamed"):
+            for node in rec.input.object_tree.traverse():
+                if not node.is_leaf():
+                    node.name = ""
+        return rec
 
     # ---- R-census -------------------------------------------------------------------
     def census(self):
@@ -336,6 +344,7 @@ def dump_layout(lay):
     """Canonical, order-preserving dump of a Layout for equality / mirror comparison."""
     PseudoGene = _m["rmodel"].PseudoGene
     sidx = None
+    oidx = {}
     out = {}
     for sp, sl in lay.items():
         if sidx is None:
@@ -350,7 +359,9 @@ def dump_layout(lay):
                 return ("loss", pseudo.setdefault(g, len(pseudo)))
             if g is None:
                 return None
-            return ("gene", g.name)
+            if g not in oidx:
+                oidx.update(canon.ete_clade_index(g.get_tree_root()))
+            return ("gene", oidx[g])  # by clade: ancestors may be unnamed
 
         # pseudo genes of the children species may be referenced from here: name them
         # by first appearance inside this species only; foreign ones get their id()-free tag
@@ -601,6 +612,9 @@ def execute(case, focus=None):
         run.probe("losses")
     if world.lab is not None:
         run.probe("labelled")
+    if case.get("unnamed"):
+        run.probe("unnamed_ancestors")
+        run.nontrivial = True
     n_computes = 0
     for idx, op in enumerate(case["ops"]):
         orient = op["orient"]
@@ -1008,7 +1022,8 @@ def describe(pid):
                 "over letters/digits/underscore/backslash) + object tree (1-6 (10) leaves) + a "
                 "valid mapping chosen node by node among all valid placements (transfers, "
                 "duplications above the LCA, losses) + optional ordered/unordered labelling on "
-                "1-12 families + optional (nested) colours + perturbed DrawParams and label "
+                "1-12 families + optional (nested) colours + ancestors named or (one case in five) "
+                "unnamed as in an object built through the API + perturbed DrawParams and label "
                 "width + a simulated TeX peer (engine tectonic/xelatex/both, per-index or "
                 "per-text sizes 1-100/10/3, chatter lines) + history of 1-4 (5) operations "
                 "(compute V/H, render V/H, on the same object or a fresh parse, a quarter of them "
@@ -1029,7 +1044,7 @@ def describe(pid):
             "nothing is learnt about real TeX output",
         ],
         "probes_expected": {
-            "C13": ["transfer", "losses", "labelled", "peer_exit", "peer_drop", "peer_dup",
+            "C13": ["transfer", "losses", "labelled", "unnamed_ancestors", "peer_exit", "peer_drop", "peer_dup",
                     "peer_absent", "engine_xelatex", "engine_tectonic"],
             "C14": ["mirror_compared", "computed_twice", "fresh_parse", "transfer", "losses",
                     "peer_chatter", "params_changed_within_history"],
